@@ -11,6 +11,7 @@ import Upa.Proofs.BoundsAgree
     * `C04_inbounds_<name>` : `.oob` is unreachable for ALL inputs (under `first ≤ last ≤ a.size` and the
       documented precondition, if any);
     * `C04_terminates_<name>` (functions with loops): the fuel the model supplies is never exhausted;
+    * `C04_noassert_compare_by_code_units`: the one `assert` among these functions never fails;
     * an evaluated instance;
     * a NON-VACUITY example: the same model with ONE guard set to a wrong value (the optional last
       argument, whose default is what the C++ has) reaches `.oob` on a concrete input — so the theorem
@@ -88,11 +89,23 @@ example : checkFixUtf8 #[0x41] 0 1 (slack := 1) = .oob := by decide      -- `it 
 theorem C04_inbounds_compare_by_code_units : ∀ (a1 : Array Nat) (first1 last1 : Nat) (a2 : Array Nat)
     (first2 last2 : Nat), first1 ≤ last1 → last1 ≤ a1.size → first2 ≤ last2 → last2 ≤ a2.size →
     compareByCodeUnits a1 first1 last1 a2 first2 last2 ≠ .oob :=
-  fun a1 f1 l1 a2 f2 l2 h1 hl1 h2 hl2 => R.sat_ne_oob (compareByCodeUnits_sat a1 f1 l1 a2 f2 l2 h1 hl1 h2 hl2)
+  fun a1 f1 l1 a2 f2 l2 h1 hl1 h2 hl2 => R.wsat_ne_oob (compareByCodeUnits_wsat a1 f1 l1 a2 f2 l2 h1 hl1 h2 hl2)
 theorem C04_terminates_compare_by_code_units : ∀ (a1 : Array Nat) (first1 last1 : Nat) (a2 : Array Nat)
     (first2 last2 : Nat), first1 ≤ last1 → last1 ≤ a1.size → first2 ≤ last2 → last2 ≤ a2.size →
     compareByCodeUnits a1 first1 last1 a2 first2 last2 ≠ .hang :=
-  fun a1 f1 l1 a2 f2 l2 h1 hl1 h2 hl2 => R.sat_ne_hang (compareByCodeUnits_sat a1 f1 l1 a2 f2 l2 h1 hl1 h2 hl2)
+  fun a1 f1 l1 a2 f2 l2 h1 hl1 h2 hl2 => R.wsat_ne_hang (compareByCodeUnits_wsat a1 f1 l1 a2 f2 l2 h1 hl1 h2 hl2)
+/-- the only `assert` in the scanned functions, `assert(detail::u16_is_lead(cu1))` (src/url_utf.cpp:94),
+    never fails on byte buffers (`const char*`): the decoder yields scalar values only (via
+    `C04_agrees_read_code_point_u8` and `Impl.readU8A_scalar`), so two different code points with the
+    same first UTF-16 unit are both supplementary -/
+theorem C04_noassert_compare_by_code_units : ∀ (a1 : Array Nat) (first1 last1 : Nat) (a2 : Array Nat)
+    (first2 last2 : Nat), first1 ≤ last1 → last1 ≤ a1.size → first2 ≤ last2 → last2 ≤ a2.size →
+    (∀ i, first1 ≤ i → i < last1 → a1[i]! < 256) → (∀ i, first2 ≤ i → i < last2 → a2[i]! < 256) →
+    compareByCodeUnits a1 first1 last1 a2 first2 last2 ≠ .abort :=
+  fun a1 f1 l1 a2 f2 l2 h1 hl1 h2 hl2 hb1 hb2 =>
+    R.sat_ne_abort (compareByCodeUnits_sat a1 f1 l1 a2 f2 l2 h1 hl1 h2 hl2 hb1 hb2)
+-- U+1F600 against U+1F601: same lead surrogate, the run passes through the assert
+example : compareByCodeUnits #[0xF0, 0x9F, 0x98, 0x80] 0 4 #[0xF0, 0x9F, 0x98, 0x81] 0 4 = .ok (-1) := by decide
 example : compareByCodeUnits #[0x61, 0xC3, 0xA9] 0 3 #[0x61, 0xC3, 0xA8] 0 3 = .ok 1 := by decide
 example : compareByCodeUnits #[0x61, 0x62] 0 2 #[0x61] 0 1 = .ok 1 := by decide
 example : compareByCodeUnits #[0x61, 0x62] 0 2 #[0x61] 0 1 (slack := 1) = .oob := by decide   -- `it2 != last2` off by one
@@ -153,6 +166,13 @@ theorem C04_terminates_ipv4_parse_number : ∀ (a : Array Nat) (first last : Nat
 example : ipv4ParseNumber (ofStr "0x1f") 0 4 = .ok (some 31) := by decide
 example : ipv4ParseNumber (ofStr "0") 0 1 = .ok (some 0) := by decide
 example : ipv4ParseNumber (ofStr "0") 0 1 (oneLen := 0) = .oob := by decide   -- without `len == 1`: first[1]
+/-- agreement with `Impl.ipv4ParseNumber` (which C11 proves equal to the Standard's IPv4 number parser).
+    The units must fit `unsigned char`: the hex branch casts `*it` to it ("safe because chars are
+    ASCII" — ipv4_parse has filtered them). -/
+theorem C04_agrees_ipv4_parse_number : ∀ (a : Array Nat) (first last : Nat), first ≤ last → last ≤ a.size →
+    (∀ i, first ≤ i → i < last → a[i]! < 256) →
+    ipv4ParseNumber a first last = .ok (Impl.ipv4ParseNumber (slice a first last)) :=
+  ipv4ParseNumber_agrees
 
 theorem C04_inbounds_ipv4_parse : ∀ (a : Array Nat) (first last : Nat), first ≤ last → last ≤ a.size →
     ipv4Parse a first last ≠ .oob :=
@@ -223,6 +243,9 @@ example : hasDotDotSegment Impl.isWindowsSlash (ofStr "../a..b/.") 0 9 = .ok tru
 example : hasDotDotSegment Impl.isWindowsSlash (ofStr "a/..b/.") 0 7 = .ok false := by decide
 -- without `last - ptr == 2 ||`: ptr[2] is read behind a trailing ".."
 example : hasDotDotSegment Impl.isWindowsSlash (ofStr "a/b/..") 0 6 (tailLen := 0) = .oob := by decide
+theorem C04_agrees_has_dot_dot_segment : ∀ (isSl : Nat → Bool) (a : Array Nat) (first last : Nat), first ≤ last →
+    last ≤ a.size → hasDotDotSegment isSl a first last = .ok (Impl.hasDotDotSegment isSl none (slice a first last)) :=
+  hasDotDotSegment_agrees
 
 theorem C04_inbounds_is_unc_path : ∀ (a : Array Nat) (first last : Nat), first ≤ last → last ≤ a.size →
     isUncPath a first last ≠ .oob :=
@@ -280,6 +303,7 @@ example : doParse false (ofStr "%4") 0 2 (minDist := 1) = .oob := by decide   --
 #print axioms C04_terminates_check_fix_utf8
 #print axioms C04_inbounds_compare_by_code_units
 #print axioms C04_terminates_compare_by_code_units
+#print axioms C04_noassert_compare_by_code_units
 #print axioms C04_inbounds_decode_hex_to_byte
 #print axioms C04_inbounds_append_percent_decoded
 #print axioms C04_terminates_append_percent_decoded
@@ -313,5 +337,7 @@ example : doParse false (ofStr "%4") 0 2 (minDist := 1) = .oob := by decide   --
 #print axioms C04_agrees_pathname_has_windows_drive
 #print axioms C04_agrees_is_windows_drive_absolute_path
 #print axioms C04_agrees_double_dot
+#print axioms C04_agrees_has_dot_dot_segment
+#print axioms C04_agrees_ipv4_parse_number
 #print axioms C04_agrees_single_dot
 end Upa.Props
